@@ -43,6 +43,10 @@ func stringToArrayIndex(name string) int64 {
 		// you cannot store a uint32 length for an index of uint32
 		return -1
 	}
+	if strconv.FormatInt(index, 10) != name {
+		// Only the canonical form is an array index (ES5 15.4): "01", "+1" and "-0" are ordinary names
+		return -1
+	}
 	return index
 }
 
